@@ -183,36 +183,12 @@ Lemma arange_padding_spec f64 s : valid_asz s ->
   (arange_header_len f64 + arange_padding f64 s) mod (2 * s) = 0 /\ arange_padding f64 s < 2 * s.
 Proof. intros [->|[->|[->| ->]]]; destruct f64; vm_compute; split; reflexivity. Qed.
 
-Lemma read_initial_length_enc (fmt64 : bool) be len rest :
-  len < (if fmt64 then 2 ^ 64 else 4294967280) ->
-  read_initial_length be (enc_initial_length fmt64 be len ++ rest) = Ok ((len, fmt64), rest).
-Proof.
-  intros H. unfold read_initial_length, enc_initial_length. destruct fmt64.
-  - rewrite <- app_assoc. rewrite read_un_enc_small by (change (8 * N.of_nat 4) with 32; reflexivity).
-    cbn [bind]. change (4294967295 <? 4294967280) with false. change (4294967295 =? 4294967295) with true. cbv iota.
-    rewrite read_un_enc_small by (change (8 * N.of_nat 8) with 64; exact H). reflexivity.
-  - rewrite read_un_enc_small by (change (8 * N.of_nat 4) with 32; change (2 ^ 32) with 4294967296; lia).
-    cbn [bind]. destruct (len <? 4294967280) eqn:E; [reflexivity|lia].
-Qed.
-
-Lemma read_word_enc (fmt64 : bool) be v rest :
-  v < (if fmt64 then 2 ^ 64 else 2 ^ 32) ->
-  read_word fmt64 be (enc_word fmt64 be v ++ rest) = Ok (v, rest).
-Proof.
-  intros H. unfold read_word, enc_word. destruct fmt64.
-  - apply read_un_enc_small. exact H.
-  - apply read_un_enc_small. exact H.
-Qed.
-
 Lemma read_address_enc s be v rest : valid_asz s -> v < 2 ^ (8 * s) ->
   read_address s be (enc_un (N.to_nat s) be v ++ rest) = Ok (v, rest).
 Proof.
   intros [->|[->|[->| ->]]] Hv; unfold read_address; cbn [N.eqb Pos.eqb];
     apply read_un_enc_small; exact Hv.
 Qed.
-
-Lemma blen_repeat (x : byte) n : blen (repeat x n) = N.of_nat n.
-Proof. unfold blen. rewrite repeat_length. reflexivity. Qed.
 
 Definition arange_desc_wf (d : arange_desc) : Prop :=
   valid_asz (a_addr_size d) /\ a_seg_size d = 0 /\ (a_version d = 2 \/ a_version d = 3) /\
